@@ -388,6 +388,13 @@ fn c10_socket_case(case: &StreamCase) -> CaseReport {
             signature: format!("panic@{}", after[before].split(" @ ").nth(1).unwrap_or("?")),
             detail: json!({"stream_hex": wire::compact_hex(&stream), "cuts": cuts, "limit": case.limit}),
         });
+    } else if matches!(&run, Ok(r) if r.server_let_go == Some(false)) {
+        rep.fail = Some(FailInfo {
+            clause: "connection_outlives_peer".into(),
+            msg: "10 s after the client closed its end the server still holds the accepted socket: the connection's task neither waits for bytes (there will be none) nor ends - it loops".into(),
+            signature: "connection_outlives_peer".into(),
+            detail: json!({"stream_hex": wire::compact_hex(&stream), "cuts": cuts, "limit": case.limit}),
+        });
     } else if !alive {
         rep.fail = Some(FailInfo {
             clause: "server_dead".into(),
@@ -396,8 +403,20 @@ fn c10_socket_case(case: &StreamCase) -> CaseReport {
             detail: json!({"stream_hex": wire::compact_hex(&stream), "cuts": cuts, "limit": case.limit}),
         });
     }
-    rep.nontrivial = run.map(|r| !r.resps.is_empty()).unwrap_or(false);
+    rep.nontrivial = run.as_ref().map(|r| !r.resps.is_empty()).unwrap_or(false);
     rep.classes.push("socket_stream".into());
+    if let Ok(r) = &run {
+        rep.classes.push(format!(
+            "socket_end:{}",
+            if r.eof || r.reset || r.closed_at_chunk.is_some() {
+                "server_closed_first"
+            } else if r.sentinel_seen {
+                "sentinel_answered_then_harness_closed"
+            } else {
+                "server_waiting_for_bytes_when_harness_closed"
+            }
+        ));
+    }
     rep
 }
 
